@@ -76,7 +76,7 @@ def check_vector(acc, v, coarse, nids, hs, labels=None):
                 acc.violation({"kind": "unreachable", "sub": "eval", "text": text, "weights": v, "group": i,
                                "why": f"group {i} spans {npts} grid points but was returned for none of the explored positions"})  # fmt: skip
     # real ids: position from the published scheme
-    for j in range(nids):
+    for j in ([] if not nids else ["", " ", "0", 0, None, False, 0.0]) + list(range(nids)):  # (degenerate keys first: the empty key has a position like any other)
         acc.add("evaluations")
         env = {"uid": j}
         out = impl.call(ev, env)
